@@ -168,21 +168,36 @@ Definition Inv (e : renv) (D : N) (r : reader) : Prop :=
       (r_nread r <= M \/ r_nread r <= r_offset r + pfs) /\
       poff < psize /\ D = r_pbase r + poff /\ r_pbase r + psize = P
   | ProcPend _ _ _, Some _ => False
-  | Failed, _ => bad_at e (r_ctr r) /\ D = P
+  | Failed, _ => bad_at e (r_ctr r) /\ D = P /\ S <= e_avail e
   end.
 
-Definition carrier_err (err : N) : Prop := err = E_EOF \/ (6 <= err /\ err <= 9).
+(* an error that comes from the carrier: its end of stream (or a zero-length read), or the I/O
+   error of a scripted entry, passed through unchanged *)
+Definition scripted (sc : list N) (err : N) : Prop :=
+  exists x, In x sc /\ SPECIAL < x /\ err = ecode (x - SPECIAL).
+Definition carrier_err (sc : list N) (err : N) : Prop := err = E_EOF \/ scripted sc err.
 
-Definition res_ok (e : renv) (b D : N) (x : rres) (r' : reader) : Prop :=
+Lemma scripted_incl sc sc' err : incl sc' sc -> scripted sc' err -> scripted sc err.
+Proof. intros Hi (x & Hx & H). exists x. split; [apply Hi; exact Hx | exact H]. Qed.
+Lemma carrier_err_incl sc sc' err : incl sc' sc -> carrier_err sc' err -> carrier_err sc err.
+Proof. intros Hi [H|H]; [left; exact H | right; eapply scripted_incl; eassumption]. Qed.
+
+Definition res_ok (e : renv) (b D : N) (sc : list N) (x : rres) (r' : reader) : Prop :=
   match x with
   | RReady n pos => pos = D /\ n <= b /\ (1 <= b -> 1 <= n) /\ Inv e (D + n) r'
   | RPending => Inv e D r'
   | RErr err =>
       Inv e D r' /\
-      ((carrier_err err /\ exists mr, r_state r' = ReadData mr) \/
+      ((carrier_err sc err /\ exists mr, r_state r' = ReadData mr) \/
        (err = E_INVALID /\ r_state r' = Failed))
   | RPanic => False
   end.
+
+Lemma res_ok_incl e b D sc sc' x r' : incl sc' sc -> res_ok e b D sc' x r' -> res_ok e b D sc x r'.
+Proof.
+  intro Hi. destruct x as [n pos| |err|]; cbn [res_ok]; try tauto.
+  intros [H1 [[H2 H3]|H2]]; (split; [exact H1|]); [left; split; [eapply carrier_err_incl; eassumption|exact H3] | right; exact H2].
+Qed.
 
 Lemma cmax_ge e : wf_env e -> 65536 <= cmax (e_cfg e).
 Proof. intros [Hf _ _ _]. unfold cmax. consts. nia. Qed.
@@ -228,7 +243,7 @@ Proof.
       * destruct (nread + fs <? M) eqn:E4; intros [= <- <-]; rfields; fold M;
           (split; [|right; eauto]); repeat split; try assumption; try lia.
       * destruct (fs <=? TAG) eqn:E5; intros [= <- <-]; rfields; fold M.
-        -- split; [reflexivity|]. split; [reflexivity|]. split; [lia|]. split; [|assumption].
+        -- split; [reflexivity|]. split; [reflexivity|]. split; [lia|]. split; [|split; [assumption|lia]].
            exists it. split; [assumption|]. apply good_false_hdr. lia.
         -- split; [|left; reflexivity]. repeat split; try assumption; try lia.
   - destruct HI as (Hp & Hcur & HD & Hon & Hnr).
@@ -247,7 +262,7 @@ Proof.
       * destruct (nread + fs <? M) eqn:E4; intros [= <- <-]; rfields; fold M;
           (split; [|right; eauto]); repeat split; try assumption; try lia.
       * destruct (fs <=? TAG) eqn:E5; intros [= <- <-]; rfields; fold M.
-        -- split; [reflexivity|]. split; [reflexivity|]. split; [lia|]. split; [|assumption].
+        -- split; [reflexivity|]. split; [reflexivity|]. split; [lia|]. split; [|split; [assumption|lia]].
            exists it. split; [assumption|]. apply good_false_hdr. fold fs. lia.
         -- split; [|left; reflexivity]. repeat split; try assumption; try lia.
 Qed.
@@ -266,9 +281,9 @@ Proof.
   now rewrite !andb_false_r.
 Qed.
 
-Lemma proc_inv e D b r r2 x : wf_env e -> Inv e D r ->
+Lemma proc_inv e D b sc r r2 x : wf_env e -> Inv e D r ->
   (r_state r = ProcNone \/ exists a b c, r_state r = ProcPend a b c) ->
-  proc e b r = (r2, x) -> res_ok e b D x r2.
+  proc e b r = (r2, x) -> res_ok e b D sc x r2.
 Proof.
   intros W HI Hs. pose proof (cmax_ge e W) as HM. pose proof (rbuf_eq (e_cfg e)) as HB.
   destruct r as [st nread offset cfs wbase ctr pbase lp]. cbn [r_state] in Hs.
@@ -280,9 +295,9 @@ Proof.
     destruct Hhd as (it & Hit & Hh).
     pose proof (wf_hdr e W it (nthI_in _ _ _ Hit)) as Hfs. rewrite Hh in Hfs.
     assert (HF : item_good (e_cfg e) it ctr = false ->
-              res_ok e b D (RErr E_INVALID) (mkR Failed nread offset None wbase ctr pbase lp)).
+              res_ok e b D sc (RErr E_INVALID) (mkR Failed nread offset None wbase ctr pbase lp)).
     { intro Hb. unfold res_ok, Inv. rfields.
-      split; [|right; split; reflexivity]. split; [assumption|]. split; [|assumption].
+      split; [|right; split; reflexivity]. split; [assumption|]. split; [|split; [assumption|lia]].
       exists it. split; assumption. }
     destruct (fs <? TAG) eqn:E1; [lia|].
     destruct (rbuf_len (e_cfg e) <? offset + fs) eqn:E2; [lia|].
@@ -342,11 +357,8 @@ Qed.
 Lemma inv_set_lp e D r l : Inv e D r -> Inv e D (set_lp r l).
 Proof. destruct r. unfold Inv, set_lp. rfields. trivial. Qed.
 
-Lemma ecode_range k : 6 <= ecode k /\ ecode k <= 9.
-Proof. unfold ecode. destruct ((6 <=? k) && (k <=? 8)) eqn:E; lia. Qed.
-
 Lemma poll_go_inv e b : wf_env e -> forall sc D r x r' sc',
-  Inv e D r -> poll_go e b sc r = (x, r', sc') -> res_ok e b D x r'.
+  Inv e D r -> poll_go e b sc r = (x, r', sc') -> res_ok e b D sc x r'.
 Proof.
   intros W.
   assert (Hpre : forall D r r1 res, Inv e D r ->
@@ -364,7 +376,7 @@ Proof.
             (match r_state r1 with
              | Failed => (RErr E_INVALID, r1, sc)
              | _ => let '(r2, y) := proc e b r1 in (y, r2, sc)
-             end) = (x, r', sc') -> res_ok e b D x r').
+             end) = (x, r', sc') -> res_ok e b D sc x r').
   { intros D r1 sc x r' sc' HI1 [Hs|[Hs|Hs]].
     - rewrite Hs. destruct (proc e b r1) as [r2 y] eqn:Ep. intros [= <- <- <-].
       eapply proc_inv; try eassumption. left; assumption.
@@ -401,12 +413,12 @@ Proof.
         left. split; [left; reflexivity|assumption]. }
       destruct (SPECIAL <? s) eqn:E2.
       { intros [= <- <- <-]. unfold res_ok. split; [apply inv_set_lp; assumption|].
-        left. split; [right; apply ecode_range|assumption]. }
+        left. split; [right; exists s; split; [left; reflexivity|split; [lia|reflexivity]]|assumption]. }
       set (k := N.min s (N.min (max_read - r_nread r1) (e_avail e - (r_wbase r1 + r_nread r1)))).
       destruct (k =? 0) eqn:Ek.
       { intros [= <- <- <-]. unfold res_ok. split; [apply inv_set_lp; assumption|].
         left. split; [left; reflexivity|assumption]. }
-      intro Hrec. eapply IH; [|exact Hrec].
+      intro Hrec. eapply res_ok_incl; [apply incl_tl, incl_refl|]. eapply IH; [|exact Hrec].
       eapply read_inv; try eassumption; unfold k; lia.
     + congruence.
     + intro H. eapply (Hfin D r1 (s :: t) x r' sc' HI1); [left; assumption|]. rewrite Es1. exact H.
@@ -415,7 +427,7 @@ Proof.
 Qed.
 
 Lemma poll_inv e b : wf_env e -> forall sc D r x r' sc',
-  Inv e D r -> poll_read e b sc r = (x, r', sc') -> res_ok e b D x r'.
+  Inv e D r -> poll_read e b sc r = (x, r', sc') -> res_ok e b D sc x r'.
 Proof.
   intros W sc D r x r' sc' HI H. unfold poll_read in H.
   eapply poll_go_inv; [exact W | apply inv_set_lp; exact HI | exact H].
@@ -423,147 +435,134 @@ Qed.
 
 (* ------------------------------------------------------------------ whole reader runs *)
 
-(* judgement on the trace of a reader run that starts with D bytes delivered; the socket is
-   polled on after errors *)
-Fixpoint run_ok (e : renv) (D : N) (bufs : list N) (tr : list (rres * reader)) {struct tr} : Prop :=
+(* a poll consumes a prefix of the carrier script *)
+Lemma poll_go_incl e b : forall sc r x r' sc', poll_go e b sc r = (x, r', sc') -> incl sc' sc.
+Proof.
+  induction sc as [|s t IH]; intros r x r' sc'; cbn [poll_go];
+    destruct (match r_state r with ReadFrameLen => step_len e r | _ => (r, None) end) as [r1 res];
+    (destruct res as [y|]; [intros [= <- <- <-]; apply incl_refl|]).
+  - destruct (r_state r1).
+    + destruct ((max_read <? r_nread r1) || (rbuf_len (e_cfg e) <? max_read));
+        intros [= <- <- <-]; apply incl_refl.
+    + intros [= <- <- <-]; apply incl_refl.
+    + destruct (proc e b r1); intros [= <- <- <-]; apply incl_refl.
+    + destruct (proc e b r1); intros [= <- <- <-]; apply incl_refl.
+    + intros [= <- <- <-]; apply incl_refl.
+  - destruct (r_state r1).
+    + destruct ((max_read <? r_nread r1) || (rbuf_len (e_cfg e) <? max_read));
+        [intros [= <- <- <-]; apply incl_refl|].
+      destruct (s =? 0); [intros [= <- <- <-]; apply incl_tl, incl_refl|].
+      destruct (s =? SPECIAL); [intros [= <- <- <-]; apply incl_tl, incl_refl|].
+      destruct (SPECIAL <? s); [intros [= <- <- <-]; apply incl_tl, incl_refl|].
+      destruct (N.min s (N.min (max_read - r_nread r1) (e_avail e - (r_wbase r1 + r_nread r1))) =? 0);
+        [intros [= <- <- <-]; apply incl_tl, incl_refl|].
+      intro H. apply incl_tl. eapply IH; exact H.
+    + intros [= <- <- <-]; apply incl_refl.
+    + destruct (proc e b r1); intros [= <- <- <-]; apply incl_refl.
+    + destruct (proc e b r1); intros [= <- <- <-]; apply incl_refl.
+    + intros [= <- <- <-]; apply incl_refl.
+Qed.
+
+Lemma poll_read_incl e b sc r x r' sc' : poll_read e b sc r = (x, r', sc') -> incl sc' sc.
+Proof. unfold poll_read. apply poll_go_incl. Qed.
+
+(* judgement on the trace of a reader run that starts with D bytes delivered, against the carrier
+   script sc; the socket is polled on after errors *)
+Fixpoint run_ok (e : renv) (D : N) (bufs sc : list N) (tr : list (rres * reader)) {struct tr} : Prop :=
   match tr, bufs with
   | [], _ => True
   | (x, r') :: t, b :: bt =>
       match x with
       | RReady n pos =>
-          pos = D /\ n <= b /\ (1 <= b -> 1 <= n) /\ Inv e (D + n) r' /\ run_ok e (D + n) bt t
-      | RPending => Inv e D r' /\ run_ok e D bt t
+          pos = D /\ n <= b /\ (1 <= b -> 1 <= n) /\ Inv e (D + n) r' /\ run_ok e (D + n) bt sc t
+      | RPending => Inv e D r' /\ run_ok e D bt sc t
       | RErr err =>
           Inv e D r' /\
-          ((carrier_err err /\ exists mr, r_state r' = ReadData mr) \/
+          ((carrier_err sc err /\ exists mr, r_state r' = ReadData mr) \/
            (err = E_INVALID /\ r_state r' = Failed)) /\
-          run_ok e D bt t
+          run_ok e D bt sc t
       | RPanic => False
       end
   | _ :: _, [] => False
   end.
 
+Lemma run_ok_incl e sc sc' : incl sc' sc -> forall tr D bufs,
+  run_ok e D bufs sc' tr -> run_ok e D bufs sc tr.
+Proof.
+  intro Hi. induction tr as [|[x r'] t IH]; intros D bufs; cbn [run_ok]; [trivial|].
+  destruct bufs as [|b bt]; [trivial|].
+  destruct x as [n pos| |err|]; try tauto.
+  - intros (H1 & H2 & H3 & H4 & H5).
+    split; [exact H1|]. split; [exact H2|]. split; [exact H3|]. split; [exact H4|]. apply IH; exact H5.
+  - intros [H1 H2]. split; [exact H1 | apply IH; exact H2].
+  - intros (H1 & H2 & H3). split; [exact H1|]. split; [|apply IH; exact H3].
+    destruct H2 as [[H2 H4]|H2]; [left; split; [eapply carrier_err_incl; eassumption|exact H4] | right; exact H2].
+Qed.
+
 Lemma run_ok_holds e : wf_env e -> forall bufs sc D r,
-  Inv e D r -> run_ok e D bufs (run_reader e bufs sc r).
+  Inv e D r -> run_ok e D bufs sc (run_reader e bufs sc r).
 Proof.
   intro W. induction bufs as [|b bt IH]; intros sc D r HI; cbn [run_reader run_ok]; [exact I|].
   destruct (poll_read e b sc r) as [[x r'] sc'] eqn:Ep.
   pose proof (poll_inv e b W sc D r x r' sc' HI Ep) as H.
+  pose proof (poll_read_incl e b sc r x r' sc' Ep) as Hi.
   cbn [run_ok]. destruct x as [n pos| |err|]; cbn [is_final res_ok] in *.
   - destruct H as (H1 & H2 & H3 & H4).
-    split; [exact H1|]. split; [exact H2|]. split; [exact H3|]. split; [exact H4|]. apply IH. exact H4.
-  - split; [exact H|]. apply IH. exact H.
-  - destruct H as [H1 H2]. split; [exact H1|]. split; [exact H2|]. apply IH. exact H1.
+    split; [exact H1|]. split; [exact H2|]. split; [exact H3|]. split; [exact H4|].
+    eapply run_ok_incl; [exact Hi|]. apply IH. exact H4.
+  - split; [exact H|]. eapply run_ok_incl; [exact Hi|]. apply IH. exact H.
+  - destruct H as [H1 H2]. split; [exact H1|]. split; [exact H2|].
+    eapply run_ok_incl; [exact Hi|]. apply IH. exact H1.
   - exact H.
 Qed.
 
-(* the part of the judgement that speaks about delivered bytes only *)
-Fixpoint pieces_ok (D : N) (bufs : list N) (tr : list (rres * reader)) {struct tr} : Prop :=
+(* the part of the judgement that speaks about delivered bytes and reported errors only: chunks
+   are consecutive; an error is the carrier's (and leaves the reader ready to go on) or it is the
+   socket's InvalidData and the reader has failed for good *)
+Fixpoint pieces_ok (D : N) (bufs sc : list N) (tr : list (rres * reader)) {struct tr} : Prop :=
   match tr, bufs with
   | [], _ => True
-  | (x, _) :: t, b :: bt =>
+  | (x, r') :: t, b :: bt =>
       match x with
-      | RReady n pos => pos = D /\ n <= b /\ (1 <= b -> 1 <= n) /\ pieces_ok (D + n) bt t
-      | RPending => pieces_ok D bt t
-      | RErr err => (carrier_err err \/ err = E_INVALID) /\ pieces_ok D bt t
+      | RReady n pos => pos = D /\ n <= b /\ (1 <= b -> 1 <= n) /\ pieces_ok (D + n) bt sc t
+      | RPending => pieces_ok D bt sc t
+      | RErr err =>
+          ((carrier_err sc err /\ exists mr, r_state r' = ReadData mr) \/
+           (err = E_INVALID /\ r_state r' = Failed)) /\ pieces_ok D bt sc t
       | RPanic => False
       end
   | _ :: _, [] => False
   end.
 
-Lemma run_ok_pieces e : forall tr D bufs, run_ok e D bufs tr -> pieces_ok D bufs tr.
+Lemma run_ok_pieces e sc : forall tr D bufs, run_ok e D bufs sc tr -> pieces_ok D bufs sc tr.
 Proof.
   induction tr as [|[x r'] t IH]; intros D bufs; cbn [run_ok pieces_ok]; [trivial|].
   destruct bufs as [|b bt]; [trivial|].
   destruct x as [n pos| |err|]; try tauto.
   - intros (H1 & H2 & H3 & _ & H4). repeat split; auto.
   - intros [_ H]. apply IH. exact H.
-  - intros (H1 & H2 & H3). split; [tauto | apply IH; exact H3].
+  - intros (H1 & H2 & H3). split; [exact H2 | apply IH; exact H3].
 Qed.
 
 Theorem read_exact e : wf_env e -> forall bufs sc,
-  pieces_ok 0 bufs (run_reader e bufs sc (reader_init (e_cfg e))).
+  pieces_ok 0 bufs sc (run_reader e bufs sc (reader_init (e_cfg e))).
 Proof.
   intros W bufs sc. eapply run_ok_pieces, run_ok_holds; [exact W|]. apply init_inv, W.
 Qed.
 
 (* ------------------------------------------------------------------ fail-stop *)
 
-Definition is_invalid (x : rres) : bool :=
-  match x with RErr e => e =? E_INVALID | _ => false end.
+Definition is_failed (r : reader) : bool :=
+  match r_state r with Failed => true | _ => false end.
 
-(* once InvalidData was reported, every later poll reports InvalidData (and so delivers nothing) *)
+(* once the reader has failed (it reported its own InvalidData), every later poll reports
+   InvalidData, delivers nothing and leaves it failed *)
 Fixpoint fail_stop (failed : bool) (tr : list (rres * reader)) : Prop :=
   match tr with
   | [] => True
-  | (x, _) :: t => (failed = true -> x = RErr E_INVALID) /\ fail_stop (failed || is_invalid x) t
+  | (x, r') :: t =>
+      (failed = true -> x = RErr E_INVALID /\ is_failed r' = true) /\ fail_stop (failed || is_failed r') t
   end.
-
-Lemma step_len_invalid e r r1 y : step_len e r = (r1, Some y) ->
-  y = RErr E_INVALID -> r_state r1 = Failed.
-Proof.
-  unfold step_len.
-  destruct (r_nread r <? r_offset r); [intros [= <- <-]; discriminate|].
-  destruct (r_nread r - r_offset r <? 2); [discriminate|].
-  destruct (r_cfs r) as [fs|].
-  - cbv beta iota zeta.
-    destruct (r_nread r - r_offset r <? fs).
-    + destruct (r_nread r + fs <? cmax (e_cfg e)); discriminate.
-    + destruct (fs <=? TAG); [intros [= <- <-]; reflexivity | discriminate].
-  - destruct (hdr_at (e_items e) (r_wbase r + r_offset r)) as [fs|]; cbv beta iota zeta.
-    + destruct (r_nread r - r_offset r - 2 <? fs).
-      * destruct (r_nread r + fs <? cmax (e_cfg e)); discriminate.
-      * destruct (fs <=? TAG); [intros [= <- <-]; reflexivity | discriminate].
-    + intros [= <- <-]; discriminate.
-Qed.
-
-Lemma proc_invalid e b r r2 : proc e b r = (r2, RErr E_INVALID) -> r_state r2 = Failed.
-Proof.
-  unfold proc. destruct (r_state r) as [mr| | |poff psize pfs|]; try discriminate.
-  - destruct (r_cfs r) as [fs|]; [|discriminate].
-    destruct (fs <? TAG); [discriminate|].
-    destruct (rbuf_len (e_cfg e) <? r_offset r + fs); [discriminate|].
-    destruct (r_nread r <? r_offset r + fs); [discriminate|].
-    destruct (SNOW_MAX <? fs); [intros [= <-]; reflexivity|].
-    destruct (body_ok (e_items e) (r_ctr r) (r_wbase r + r_offset r) fs).
-    + destruct (fs - TAG <=? b); [discriminate|].
-      destruct (c_mfl (e_cfg e) <? fs - TAG); [intros [= <-]; reflexivity | discriminate].
-    + destruct (fs - TAG <=? b); [intros [= <-]; reflexivity|].
-      destruct (c_mfl (e_cfg e) <? fs - TAG); intros [= <-]; reflexivity.
-  - destruct (psize <? poff); [discriminate|].
-    destruct (psize - poff <=? b); discriminate.
-Qed.
-
-Lemma ecode_not_invalid k : ecode k <> E_INVALID.
-Proof. pose proof (ecode_range k). unfold E_INVALID. lia. Qed.
-
-Lemma poll_go_invalid e b : forall sc r r' sc',
-  poll_go e b sc r = (RErr E_INVALID, r', sc') -> r_state r' = Failed.
-Proof.
-  induction sc as [|s t IH]; intros r r' sc'; cbn [poll_go];
-    destruct (match r_state r with ReadFrameLen => step_len e r | _ => (r, None) end)
-      as [r1 res] eqn:Epre;
-    (destruct res as [y|];
-     [intros [= -> <- <-]; destruct (r_state r) eqn:Es; try discriminate;
-      eapply step_len_invalid; [exact Epre|reflexivity]|]).
-  - destruct (r_state r1) eqn:Es1.
-    + destruct ((max_read <? r_nread r1) || (rbuf_len (e_cfg e) <? max_read)); discriminate.
-    + discriminate.
-    + destruct (proc e b r1) as [r2 y] eqn:Ep. intros [= -> <- <-]. eapply proc_invalid; exact Ep.
-    + destruct (proc e b r1) as [r2 y] eqn:Ep. intros [= -> <- <-]. eapply proc_invalid; exact Ep.
-    + intros [= <- <-]. assumption.
-  - destruct (r_state r1) eqn:Es1.
-    + destruct ((max_read <? r_nread r1) || (rbuf_len (e_cfg e) <? max_read)); [discriminate|].
-      destruct (s =? 0); [discriminate|].
-      destruct (s =? SPECIAL); [discriminate|].
-      destruct (SPECIAL <? s); [intros [= H _ _]; exfalso; exact (ecode_not_invalid _ H)|].
-      destruct (N.min s (N.min (max_read - r_nread r1) (e_avail e - (r_wbase r1 + r_nread r1))) =? 0);
-        [discriminate|]. apply IH.
-    + discriminate.
-    + destruct (proc e b r1) as [r2 y] eqn:Ep. intros [= -> <- <-]. eapply proc_invalid; exact Ep.
-    + destruct (proc e b r1) as [r2 y] eqn:Ep. intros [= -> <- <-]. eapply proc_invalid; exact Ep.
-    + intros [= <- <-]. assumption.
-Qed.
 
 Lemma poll_failed e b sc r : r_state r = Failed ->
   poll_read e b sc r = (RErr E_INVALID, set_lp r false, sc).
@@ -574,31 +573,19 @@ Proof.
 Qed.
 
 Theorem reader_fail_stop e : forall bufs sc r,
-  fail_stop (match r_state r with Failed => true | _ => false end) (run_reader e bufs sc r).
+  fail_stop (is_failed r) (run_reader e bufs sc r).
 Proof.
   induction bufs as [|b bt IH]; intros sc r; cbn [run_reader fail_stop]; [exact I|].
   destruct (poll_read e b sc r) as [[x r'] sc'] eqn:Ep. cbn [fail_stop].
-  assert (Hx : is_invalid x = true -> r_state r' = Failed).
-  { destruct x as [n pos| |err|]; cbn [is_invalid]; try discriminate.
-    intro He. assert (err = E_INVALID) by lia. subst err.
-    unfold poll_read in Ep. eapply poll_go_invalid; exact Ep. }
-  destruct (r_state r) eqn:Es.
-  5:{ rewrite (poll_failed e b sc r Es) in Ep. injection Ep as <- <- <-.
-      split; [reflexivity|]. cbn [is_final orb].
-      specialize (IH sc (set_lp r false)).
-      replace (r_state (set_lp r false)) with Failed in IH by (destruct r; symmetry; exact Es).
-      exact IH. }
-  all: split; [discriminate|]; cbn [orb];
-    destruct (is_final x); [destruct (is_invalid x); exact I|];
-    specialize (IH sc' r');
-    destruct (is_invalid x) eqn:Ei;
-      [rewrite (Hx eq_refl) in IH; exact IH|];
-    destruct (r_state r'); try exact IH;
-    (* a Failed state without a reported InvalidData: still fine, the later polls all fail *)
-    clear -IH; revert IH; generalize (run_reader e bt sc' r'); intro l;
-    induction l as [|[y q] l IHl]; cbn [fail_stop]; [trivial|];
-    intros [H1 H2]; split; [discriminate|]; rewrite (H1 eq_refl) in *; cbn [is_invalid orb] in *;
-    replace (E_INVALID =? E_INVALID) with true in * by reflexivity; cbn [orb]; exact H2.
+  destruct (is_failed r) eqn:Ef.
+  - assert (Es : r_state r = Failed) by (unfold is_failed in Ef; destruct (r_state r); try discriminate; reflexivity).
+    rewrite (poll_failed e b sc r Es) in Ep. injection Ep as <- <- <-.
+    assert (Hf : is_failed (set_lp r false) = true)
+      by (unfold is_failed; destruct r; unfold set_lp; rfields; rewrite Es; reflexivity).
+    split; [intros _; split; [reflexivity|exact Hf]|]. cbn [is_final orb].
+    specialize (IH sc (set_lp r false)). rewrite Hf in IH. exact IH.
+  - split; [discriminate|]. cbn [orb].
+    destruct (is_final x); [exact I|]. exact (IH sc' r').
 Qed.
 
 (* ------------------------------------------------------------------ the honest wire *)
@@ -704,7 +691,8 @@ Proof.
 Qed.
 
 (* judgement on a run over the untampered wire of W bytes carrying `total` plaintext bytes, D
-   delivered so far: InvalidData never; never more than was written; whenever the carrier reports
+   delivered so far: the reader never fails (an InvalidData can only be the carrier's own error,
+   passed through); never more than was written; whenever the carrier reports
    EOF after the whole wire was pulled, everything has been delivered *)
 Fixpoint honest_ok (W total D : N) (tr : list (rres * reader)) : Prop :=
   match tr with
@@ -713,7 +701,7 @@ Fixpoint honest_ok (W total D : N) (tr : list (rres * reader)) : Prop :=
       match x with
       | RReady n _ => D + n <= total /\ honest_ok W total (D + n) t
       | RErr err =>
-          err <> E_INVALID /\
+          r_state r' <> Failed /\
           (err = E_EOF -> r_wbase r' + r_nread r' = W -> D = total) /\
           honest_ok W total D t
       | _ => honest_ok W total D t
@@ -721,10 +709,10 @@ Fixpoint honest_ok (W total D : N) (tr : list (rres * reader)) : Prop :=
   end.
 
 Lemma run_ok_honest c plains : 1 <= c_factor c -> c_mfl c + TAG <= SNOW_MAX -> plains_ok c plains ->
-  forall tr D bufs, run_ok (honest_env c plains) D bufs tr ->
+  forall sc tr D bufs, run_ok (honest_env c plains) D bufs sc tr ->
   honest_ok (wire_len (honest plains)) (sum plains) D tr.
 Proof.
-  intros Hf Hm Hp. induction tr as [|[x r1] t IH]; intros D bufs H; [exact I|].
+  intros Hf Hm Hp sc. induction tr as [|[x r1] t IH]; intros D bufs H; [exact I|].
   cbn [run_ok] in H. destruct bufs as [|b bt]; [contradiction|]. cbn [honest_ok].
   destruct x as [n pos| |err|]; try contradiction.
   - destruct H as (_ & _ & _ & HI & H). split; [|eapply IH; exact H].
@@ -732,8 +720,8 @@ Proof.
     pose proof (pstart_le_sum plains (r_ctr r1)). lia.
   - destruct H as [_ H]. eapply IH; exact H.
   - destruct H as (HI & Hc & H). split; [|split; [|eapply IH; exact H]].
-    + destruct Hc as [[Hc _]|[-> Hs]].
-      * unfold carrier_err, E_EOF, E_INVALID in *. lia.
+    + destruct Hc as [[_ [mr Hs]]|[-> Hs]].
+      * congruence.
       * exfalso. unfold Inv in HI. rewrite Hs in HI. destruct HI as (_ & (it & Hit & Hbad) & _).
         cbn [e_items e_cfg honest_env] in *. rewrite (honest_good c plains _ _ Hp Hit) in Hbad. discriminate.
     + intros -> Hall. destruct Hc as [[_ [mr Hs]]|[Hc _]]; [|discriminate].
@@ -743,11 +731,11 @@ Qed.
 Theorem read_honest c plains : 1 <= c_factor c -> c_mfl c + TAG <= SNOW_MAX -> plains_ok c plains ->
   forall bufs sc,
   let tr := run_reader (honest_env c plains) bufs sc (reader_init c) in
-  pieces_ok 0 bufs tr /\ honest_ok (wire_len (honest plains)) (sum plains) 0 tr.
+  pieces_ok 0 bufs sc tr /\ honest_ok (wire_len (honest plains)) (sum plains) 0 tr.
 Proof.
   intros Hf Hm Hp bufs sc tr.
   pose proof (honest_wf c plains Hf Hm Hp) as W.
-  assert (H : run_ok (honest_env c plains) 0 bufs tr).
+  assert (H : run_ok (honest_env c plains) 0 bufs sc tr).
   { apply run_ok_holds; [exact W|]. apply (init_inv (honest_env c plains) W). }
   split; [eapply run_ok_pieces; exact H|]. eapply run_ok_honest; eassumption.
 Qed.
@@ -775,38 +763,68 @@ Proof. induction a as [|x t IH]; cbn [app frames_wire]; [lia | rewrite IH; lia].
 Lemma frames_wire_ge l : sum l <= frames_wire l.
 Proof. induction l as [|x t IH]; cbn [sum frames_wire]; lia. Qed.
 
-Definition derr_ok (res : drain_res) : Prop :=
-  match res with DErr e => e <> E_INVALID | _ => True end.
+(* where an error reported by a writer-side call comes from: the carrier was closed by the
+   caller (BrokenPipe), the carrier accepted zero bytes (WriteZero), or the carrier's own I/O
+   error, passed through unchanged.  The socket never fails by itself. *)
+Definition wsrc (sc : list N) (closed : bool) (e : N) : Prop :=
+  (closed = true /\ e = E_BROKENPIPE) \/ (In SPECIAL sc /\ e = E_WRITEZERO) \/ scripted sc e.
+
+Lemma wsrc_incl sc sc' closed e : incl sc' sc -> wsrc sc' closed e -> wsrc sc closed e.
+Proof.
+  intros Hi [H|[[H1 H2]|H]]; [left; exact H | right; left; split; [apply Hi; exact H1|exact H2] |
+                              right; right; eapply scripted_incl; eassumption].
+Qed.
+
+Definition derr_ok (sc : list N) (closed : bool) (res : drain_res) : Prop :=
+  match res with DErr e => wsrc sc closed e | _ => True end.
+
+Lemma derr_ok_incl sc sc' closed res : incl sc' sc -> derr_ok sc' closed res -> derr_ok sc closed res.
+Proof. intro Hi. destruct res; cbn [derr_ok]; try tauto. apply wsrc_incl; exact Hi. Qed.
 
 Lemma drain_spec eb closed : forall sc off elen sent res off' sent' sc', off < elen -> elen <= eb ->
   drain eb closed sc off elen sent = (res, off', sent', sc') ->
   res <> DPanic /\ off <= off' /\ sent' = sent + (off' - off) /\
-  (res = DDone -> off' = elen) /\ (res <> DDone -> off' < elen) /\ derr_ok res /\
-  (closed = true -> sent' = sent /\ res = DErr E_BROKENPIPE).
+  (res = DDone -> off' = elen) /\ (res <> DDone -> off' < elen) /\ derr_ok sc closed res /\
+  (closed = true -> sent' = sent /\ res = DErr E_BROKENPIPE) /\ incl sc' sc.
 Proof.
   induction sc as [|x t IH]; intros off elen sent res off' sent' sc' H1 H2; cbn [drain];
     (destruct ((elen <? off) || (eb <? elen)) eqn:Ep; [lia|]);
     (destruct closed;
-     [intros [= <- <- <- <-]; cbn [derr_ok]; unfold E_BROKENPIPE, E_INVALID;
-      repeat split; try lia; try congruence|]).
-  - intros [= <- <- <- <-]. cbn [derr_ok]. repeat split; try lia; try congruence.
+     [intros [= <- <- <- <-]; cbn [derr_ok];
+      (split; [congruence|]); (split; [lia|]); (split; [lia|]); (split; [congruence|]);
+      (split; [intros _; lia|]); (split; [left; split; reflexivity|]);
+      (split; [intros _; split; reflexivity | apply incl_refl])|]).
+  - intros [= <- <- <- <-]. cbn [derr_ok].
+    split; [congruence|]. split; [lia|]. split; [lia|]. split; [reflexivity|].
+    split; [congruence|]. split; [exact I|]. split; [discriminate | apply incl_refl].
   - destruct (x =? 0) eqn:E0.
-    { intros [= <- <- <- <-]. cbn [derr_ok]. repeat split; try lia; try congruence. }
+    { intros [= <- <- <- <-]. cbn [derr_ok].
+      split; [congruence|]. split; [lia|]. split; [lia|]. split; [congruence|].
+      split; [intros _; lia|]. split; [exact I|]. split; [discriminate | apply incl_tl, incl_refl]. }
     destruct (x =? SPECIAL) eqn:E1.
-    { intros [= <- <- <- <-]. cbn [derr_ok]. unfold E_WRITEZERO, E_INVALID.
-      repeat split; try lia; try congruence. }
+    { intros [= <- <- <- <-]. cbn [derr_ok].
+      split; [congruence|]. split; [lia|]. split; [lia|]. split; [congruence|].
+      split; [intros _; lia|]. split; [right; left; split; [left; lia|reflexivity]|].
+      split; [discriminate | apply incl_tl, incl_refl]. }
     destruct (SPECIAL <? x) eqn:E2.
-    { intros [= <- <- <- <-]. cbn [derr_ok]. pose proof (ecode_range (x - SPECIAL)). unfold E_INVALID.
-      repeat split; try lia; try congruence. }
+    { intros [= <- <- <- <-]. cbn [derr_ok].
+      split; [congruence|]. split; [lia|]. split; [lia|]. split; [congruence|].
+      split; [intros _; lia|].
+      split; [right; right; exists x; split; [left; reflexivity|split; [lia|reflexivity]]|].
+      split; [discriminate | apply incl_tl, incl_refl]. }
     destruct (off + N.min x (elen - off) =? elen) eqn:E3.
-    + intros [= <- <- <- <-]. cbn [derr_ok]. repeat split; try lia; try congruence.
-    + intro H. apply IH in H; try lia. destruct H as (A & B & C & D1 & D2 & D3 & D4).
-      repeat split; try assumption; try lia; try congruence.
+    + intros [= <- <- <- <-]. cbn [derr_ok].
+      split; [congruence|]. split; [lia|]. split; [lia|]. split; [reflexivity|].
+      split; [congruence|]. split; [exact I|]. split; [discriminate | apply incl_tl, incl_refl].
+    + intro H. apply IH in H; try lia. destruct H as (A & B & C & D1 & D2 & D3 & D4 & D5).
+      split; [exact A|]. split; [lia|]. split; [lia|]. split; [exact D1|]. split; [exact D2|].
+      split; [eapply derr_ok_incl; [apply incl_tl, incl_refl | exact D3]|].
+      split; [discriminate | apply incl_tl; exact D5].
 Qed.
 
 (* the shared first step: drain what is buffered *)
 Lemma wpre_spec c sc w dres st1 sent1 sc1 : WInv c w -> wpre c sc w = (dres, st1, sent1, sc1) ->
-  dres <> DPanic /\ derr_ok dres /\
+  dres <> DPanic /\ derr_ok sc (w_cclosed w) dres /\ incl sc1 sc /\
   (forall cl l, WInv c (mkW st1 (w_frames w) sent1 cl l)) /\
   (dres = DDone -> st1 = WIdle) /\
   (dres <> DDone -> exists off elen, st1 = Writing off elen) /\
@@ -816,14 +834,16 @@ Lemma wpre_spec c sc w dres st1 sent1 sc1 : WInv c w -> wpre c sc w = (dres, st1
 Proof.
   intros [HF HS]. unfold wpre. destruct (w_state w) as [|off elen] eqn:Es.
   - intros [= <- <- <- <-]. cbn [derr_ok].
+    split; [congruence|]. split; [exact I|]. split; [apply incl_refl|].
     repeat split; try congruence; try assumption.
     + intros _ (o & l & H). discriminate.
   - destruct HS as (A & B & C).
     destruct (drain (ebuf_len c) (w_cclosed w) sc off elen (w_sent w)) as [[[res off'] s] sc0] eqn:Ed.
-    destruct (drain_spec _ _ _ _ _ _ _ _ _ _ A B Ed) as (P1 & P2 & P3 & P4 & P5 & P6 & P7).
+    destruct (drain_spec _ _ _ _ _ _ _ _ _ _ A B Ed) as (P1 & P2 & P3 & P4 & P5 & P6 & P7 & P8).
     assert (Hne : res <> DDone -> off' < elen) by exact P5.
     destruct res as [| |e|]; intros [= <- <- <- <-]; try congruence;
       [specialize (P4 eq_refl) | specialize (Hne ltac:(congruence)) | specialize (Hne ltac:(congruence))];
+      (split; [congruence|]); (split; [exact P6 || exact I|]); (split; [exact P8|]);
       (repeat split; try congruence; try assumption; wfields; try lia;
        try (intros _; eauto; fail);
        try (intro Hc; destruct (P7 Hc); lia);
@@ -865,32 +885,32 @@ Qed.
 (* what one writer call guarantees, whatever the carrier does:
    the invariant; the carrier's closed flag only changes by a completed close; nothing reaches a
    closed carrier; Ready n: n bytes (at most len) were framed; Pending: nothing was accepted and the
-   last carrier call returned Pending (waker registered); an error: nothing was accepted and it is
-   not InvalidData (the socket never fails by itself); never a panic *)
-Definition wres_ok (c : cfg) (len : N) (w : writer) (x : wres) (w' : writer) : Prop :=
+   last carrier call returned Pending (waker registered); an error: nothing was accepted and the
+   error is the carrier's (the socket never fails by itself); never a panic *)
+Definition wres_ok (c : cfg) (len : N) (sc : list N) (w : writer) (x : wres) (w' : writer) : Prop :=
   WInv c w' /\
   (w_cclosed w = true -> w_sent w' = w_sent w) /\
   match x with
   | WReady n => n <= len /\ sum (w_frames w') = sum (w_frames w) + n
   | WPending => w_frames w' = w_frames w /\ w_lp w' = true
-  | WErr e => w_frames w' = w_frames w /\ e <> E_INVALID
+  | WErr e => w_frames w' = w_frames w /\ wsrc sc (w_cclosed w) e
   | WPanic => False
   end.
 
 Lemma poll_write_ok c len sc w x w' sc' :
   1 <= c_mfl c -> c_mfl c + TAG <= SNOW_MAX -> 1 <= c_wbuf c ->
   WInv c w -> poll_write c len sc w = (x, w', sc') ->
-  wres_ok c len w x w' /\ w_cclosed w' = w_cclosed w.
+  wres_ok c len sc w x w' /\ w_cclosed w' = w_cclosed w /\ incl sc' sc.
 Proof.
   intros H1 H2 H3 HI. unfold poll_write.
   destruct (wpre c sc w) as [[[dres st1] sent1] sc1] eqn:Ed.
-  destruct (wpre_spec c sc w dres st1 sent1 sc1 HI Ed) as (P1 & P2 & P3 & P4 & P5 & P6 & P7 & P8).
+  destruct (wpre_spec c sc w dres st1 sent1 sc1 HI Ed) as (P1 & P2 & Pi & P3 & P4 & P5 & P6 & P7 & P8).
   unfold wres_ok.
   destruct dres as [| |e|]; try congruence.
   - (* drained *)
     specialize (P4 eq_refl). subst st1.
     destruct (len =? 0) eqn:E0.
-    { intros [= <- <- <-]. wfields. split; [split; [apply P3|split; [exact P6|split; lia]]|reflexivity]. }
+    { intros [= <- <- <-]. wfields. split; [split; [apply P3|split; [exact P6|split; lia]]|split; [reflexivity|exact Pi]]. }
     destruct (c_mfl c =? 0) eqn:Em; [lia|].
     destruct (pack c (chunk_count c len) len 0) as [[[bo' tot] fr]|] eqn:Ep.
     2:{ destruct (pack_spec c H1 H2 (chunk_count c len) len 0) as (a & b & d & He & _). congruence. }
@@ -901,7 +921,7 @@ Proof.
     intros [= <- <- <-]. wfields.
     destruct (P3 false false) as [HF HS]. wfields.
     pose proof (frames_wire_ge fr).
-    split; [|reflexivity]. split; [split|split].
+    split; [|split; [reflexivity|exact Pi]]. split; [split|split].
     + wfields. apply Forall_app; split; assumption.
     + wfields. rewrite frames_wire_app. assert (0 <= ebuf_len c) by lia. lia.
     + assumption.
@@ -909,21 +929,21 @@ Proof.
   - (* carrier busy *)
     destruct (P5 ltac:(congruence)) as (off & elen & ->).
     destruct (len =? 0) eqn:E0.
-    { intros [= <- <- <-]. wfields. split; [split; [apply P3|split; [exact P6|split; lia]]|reflexivity]. }
+    { intros [= <- <- <-]. wfields. split; [split; [apply P3|split; [exact P6|split; lia]]|split; [reflexivity|exact Pi]]. }
     destruct (c_mfl c =? 0) eqn:Em; [lia|].
     destruct (pack_spec c H1 H2 (chunk_count c len) len elen) as (bo' & tot & fr & -> & Hb & Ht & Hle & Hfr & Hfit).
     destruct (P3 false false) as [HF HS]. wfields. destruct HS as (A & B & C).
     destruct (tot =? 0) eqn:Et.
-    { intros [= <- <- <-]. wfields. split; [split; [apply P3|split; [exact P6|split; reflexivity]]|reflexivity]. }
+    { intros [= <- <- <-]. wfields. split; [split; [apply P3|split; [exact P6|split; reflexivity]]|split; [reflexivity|exact Pi]]. }
     intros [= <- <- <-]. wfields. pose proof (frames_wire_ge fr).
-    split; [|reflexivity]. split; [split|split].
+    split; [|split; [reflexivity|exact Pi]]. split; [split|split].
     + wfields. apply Forall_app; split; assumption.
     + wfields. rewrite frames_wire_app. specialize (Hfit B). lia.
     + assumption.
     + rewrite sum_app. lia.
   - (* carrier error *)
     intros [= <- <- <-]. wfields. cbn [derr_ok] in P2.
-    split; [split; [apply P3|split; [exact P6|split; [reflexivity|assumption]]]|reflexivity].
+    split; [split; [apply P3|split; [exact P6|split; [reflexivity|assumption]]]|split; [reflexivity|exact Pi]].
 Qed.
 
 Lemma poll_write_progress c len sc w x w' sc' :
@@ -942,79 +962,86 @@ Proof.
 Qed.
 
 Lemma carrier_ctl_spec closed sc r sc2 : carrier_ctl closed sc = (r, sc2) ->
-  match r with CErr e => e <> E_INVALID | _ => True end.
+  match r with CErr e => scripted sc e | _ => True end /\ incl sc2 sc.
 Proof.
-  unfold carrier_ctl. destruct closed; [intros [= <- <-]; exact I|].
-  destruct sc as [|x t]; [intros [= <- <-]; exact I|].
-  destruct (x =? 0); [intros [= <- <-]; exact I|].
-  destruct (SPECIAL <? x); intros [= <- <-]; [|exact I].
-  apply ecode_not_invalid.
+  unfold carrier_ctl. destruct closed; [intros [= <- <-]; split; [exact I|apply incl_refl]|].
+  destruct sc as [|x t]; [intros [= <- <-]; split; [exact I|apply incl_refl]|].
+  destruct (x =? 0); [intros [= <- <-]; split; [exact I|apply incl_tl, incl_refl]|].
+  destruct (SPECIAL <? x) eqn:E; intros [= <- <-]; (split; [|apply incl_tl, incl_refl]); [|exact I].
+  exists x. split; [left; reflexivity|]. split; [lia|reflexivity].
 Qed.
 
 (* poll_flush: Ready means the encrypt buffer is empty and every frame is with the carrier *)
 Lemma poll_flush_ok c sc w x w' sc' : WInv c w -> poll_flush c sc w = (x, w', sc') ->
-  wres_ok c 0 w x w' /\ w_frames w' = w_frames w /\ w_cclosed w' = w_cclosed w /\
-  (forall n, x = WReady n -> n = 0 /\ w_state w' = WIdle /\ w_sent w' = frames_wire (w_frames w')).
+  wres_ok c 0 sc w x w' /\ w_frames w' = w_frames w /\ w_cclosed w' = w_cclosed w /\
+  (forall n, x = WReady n -> n = 0 /\ w_state w' = WIdle /\ w_sent w' = frames_wire (w_frames w')) /\
+  incl sc' sc.
 Proof.
   intros HI. unfold poll_flush.
   destruct (wpre c sc w) as [[[dres st1] sent1] sc1] eqn:Ed.
-  destruct (wpre_spec c sc w dres st1 sent1 sc1 HI Ed) as (P1 & P2 & P3 & P4 & P5 & P6 & P7 & P8).
+  destruct (wpre_spec c sc w dres st1 sent1 sc1 HI Ed) as (P1 & P2 & Pi & P3 & P4 & P5 & P6 & P7 & P8).
   unfold wres_ok.
   destruct dres as [| |e|]; try congruence.
   - specialize (P4 eq_refl). subst st1.
     destruct (carrier_ctl (w_cclosed w) sc1) as [r sc2] eqn:Ec.
-    pose proof (carrier_ctl_spec _ _ _ _ Ec) as Hc.
+    destruct (carrier_ctl_spec _ _ _ _ Ec) as [Hc Hi2].
+    assert (Hi : incl sc2 sc) by (eapply incl_tran; eassumption).
     destruct (P3 (w_cclosed w) false) as [HF HS]. wfields.
     destruct r as [| |e]; intros [= <- <- <-]; wfields.
-    + split; [|split; [reflexivity|split; [reflexivity|]]].
+    + split; [|split; [reflexivity|split; [reflexivity|split; [|exact Hi]]]].
       * split; [apply P3|]. split; [assumption|]. lia.
       * intros n [= <-]. repeat split. lia.
-    + split; [|split; [reflexivity|split; [reflexivity|]]].
+    + split; [|split; [reflexivity|split; [reflexivity|split; [|exact Hi]]]].
       * split; [apply P3|]. split; [assumption|]. split; reflexivity.
       * intros n [=].
-    + split; [|split; [reflexivity|split; [reflexivity|]]].
-      * split; [apply P3|]. split; [assumption|]. split; [reflexivity|assumption].
+    + split; [|split; [reflexivity|split; [reflexivity|split; [|exact Hi]]]].
+      * split; [apply P3|]. split; [assumption|]. split; [reflexivity|].
+        right; right. exact (scripted_incl _ _ _ Pi Hc).
       * intros n [=].
-  - intros [= <- <- <-]. wfields. split; [|split; [reflexivity|split; [reflexivity|]]].
+  - intros [= <- <- <-]. wfields. split; [|split; [reflexivity|split; [reflexivity|split; [|exact Pi]]]].
     + split; [apply P3|]. split; [assumption|]. split; reflexivity.
     + intros n [=].
-  - intros [= <- <- <-]. wfields. cbn [derr_ok] in P2. split; [|split; [reflexivity|split; [reflexivity|]]].
+  - intros [= <- <- <-]. wfields. cbn [derr_ok] in P2.
+    split; [|split; [reflexivity|split; [reflexivity|split; [|exact Pi]]]].
     + split; [apply P3|]. split; [assumption|]. split; [reflexivity|assumption].
     + intros n [=].
 Qed.
 
 (* poll_close: Ready means everything was flushed first and then the carrier was closed *)
 Lemma poll_close_ok c sc w x w' sc' : WInv c w -> poll_close c sc w = (x, w', sc') ->
-  wres_ok c 0 w x w' /\ w_frames w' = w_frames w /\
+  wres_ok c 0 sc w x w' /\ w_frames w' = w_frames w /\
   (w_cclosed w = true -> w_cclosed w' = true) /\
   (forall n, x = WReady n ->
      n = 0 /\ w_state w' = WIdle /\ w_sent w' = frames_wire (w_frames w') /\ w_cclosed w' = true) /\
-  (w_cclosed w' = true -> w_cclosed w = false -> exists n, x = WReady n).
+  (w_cclosed w' = true -> w_cclosed w = false -> exists n, x = WReady n) /\
+  incl sc' sc.
 Proof.
   intros HI. unfold poll_close.
   destruct (poll_flush c sc w) as [[y w1] sc1] eqn:Ef.
-  destruct (poll_flush_ok c sc w y w1 sc1 HI Ef) as ((HW & Hcs & Hy) & Hfr & Hcl & Hrd).
+  destruct (poll_flush_ok c sc w y w1 sc1 HI Ef) as ((HW & Hcs & Hy) & Hfr & Hcl & Hrd & Hi1).
   destruct y as [n| |e|].
   - destruct (Hrd n eq_refl) as (-> & Hst & Hsent).
     destruct (carrier_ctl (w_cclosed w1) sc1) as [r sc2] eqn:Ec.
-    pose proof (carrier_ctl_spec _ _ _ _ Ec) as Hc.
+    destruct (carrier_ctl_spec _ _ _ _ Ec) as [Hc Hi2].
+    assert (Hi : incl sc2 sc) by (eapply incl_tran; eassumption).
     assert (HW' : forall cl l, WInv c (mkW (w_state w1) (w_frames w1) (w_sent w1) cl l))
       by (intros cl l; exact HW).
     unfold wres_ok.
     destruct r as [| |e]; intros [= <- <- <-]; wfields.
     + split; [split; [apply HW'|split; [assumption|lia]]|].
-      split; [assumption|]. split; [reflexivity|]. split; [|eauto].
+      split; [assumption|]. split; [reflexivity|]. split; [|split; [eauto|exact Hi]].
       intros m [= <-]. repeat split; assumption.
     + split; [split; [apply HW'|split; [assumption|split; [assumption|reflexivity]]]|].
-      split; [assumption|]. split; [congruence|]. split; [intros m [=]|].
+      split; [assumption|]. split; [congruence|]. split; [intros m [=]|]. split; [|exact Hi].
       intros Ha Hb. congruence.
-    + split; [split; [apply HW'|split; [assumption|split; assumption]]|].
-      split; [assumption|]. split; [congruence|]. split; [intros m [=]|].
+    + split; [split; [apply HW'|split; [assumption|split; [assumption|]]]|].
+      { right; right. exact (scripted_incl _ _ _ Hi1 Hc). }
+      split; [assumption|]. split; [congruence|]. split; [intros m [=]|]. split; [|exact Hi].
       intros Ha Hb. congruence.
   - intros [= <- <- <-]. split; [split; [assumption|split; assumption]|].
-    split; [assumption|]. split; [congruence|]. split; [intros m [=]|]. intros Ha Hb. congruence.
+    split; [assumption|]. split; [congruence|]. split; [intros m [=]|]. split; [|exact Hi1]. intros Ha Hb. congruence.
   - intros [= <- <- <-]. split; [split; [assumption|split; assumption]|].
-    split; [assumption|]. split; [congruence|]. split; [intros m [=]|]. intros Ha Hb. congruence.
+    split; [assumption|]. split; [congruence|]. split; [intros m [=]|]. split; [|exact Hi1]. intros Ha Hb. congruence.
   - contradiction.
 Qed.
 
@@ -1025,51 +1052,63 @@ Definition op_len (o : wop) : N :=
 Lemma wstep_ok c o sc w x w' sc' :
   1 <= c_mfl c -> c_mfl c + TAG <= SNOW_MAX -> 1 <= c_wbuf c ->
   WInv c w -> wstep c o sc w = (x, w', sc') ->
-  wres_ok c (op_len o) w x w' /\
+  wres_ok c (op_len o) sc w x w' /\
   (is_write o = false -> w_frames w' = w_frames w) /\
   (w_cclosed w = true -> w_cclosed w' = true) /\
   (w_cclosed w' = true -> w_cclosed w = false ->
-     o = OClose /\ x = WReady 0 /\ w_state w' = WIdle /\ w_sent w' = frames_wire (w_frames w')).
+     o = OClose /\ x = WReady 0 /\ w_state w' = WIdle /\ w_sent w' = frames_wire (w_frames w')) /\
+  incl sc' sc.
 Proof.
   intros H1 H2 H3 HI. destruct o as [len| | |lens]; cbn [wstep op_len is_write].
-  - intro H. destruct (poll_write_ok c len sc w x w' sc' H1 H2 H3 HI H) as [A B].
-    split; [exact A|]. split; [discriminate|]. split; [congruence|]. intros Ha Hb. congruence.
-  - intro H. destruct (poll_flush_ok c sc w x w' sc' HI H) as (A & B & C & D).
-    split; [exact A|]. split; [intros _; exact B|]. split; [congruence|]. intros Ha Hb. congruence.
-  - intro H. destruct (poll_close_ok c sc w x w' sc' HI H) as (A & B & C & D & E).
-    split; [exact A|]. split; [intros _; exact B|]. split; [exact C|].
+  - intro H. destruct (poll_write_ok c len sc w x w' sc' H1 H2 H3 HI H) as (A & B & Hi).
+    split; [exact A|]. split; [discriminate|]. split; [congruence|]. split; [|exact Hi]. intros Ha Hb. congruence.
+  - intro H. destruct (poll_flush_ok c sc w x w' sc' HI H) as (A & B & C & D & Hi).
+    split; [exact A|]. split; [intros _; exact B|]. split; [congruence|]. split; [|exact Hi]. intros Ha Hb. congruence.
+  - intro H. destruct (poll_close_ok c sc w x w' sc' HI H) as (A & B & C & D & E & Hi).
+    split; [exact A|]. split; [intros _; exact B|]. split; [exact C|]. split; [|exact Hi].
     intros Ha Hb. destruct (E Ha Hb) as [n ->]. destruct (D n eq_refl) as (-> & D2 & D3 & D4).
     repeat split; assumption.
-  - intro H. destruct (poll_write_ok c _ sc w x w' sc' H1 H2 H3 HI H) as [A B].
-    split; [exact A|]. split; [discriminate|]. split; [congruence|]. intros Ha Hb. congruence.
+  - intro H. destruct (poll_write_ok c _ sc w x w' sc' H1 H2 H3 HI H) as (A & B & Hi).
+    split; [exact A|]. split; [discriminate|]. split; [congruence|]. split; [|exact Hi]. intros Ha Hb. congruence.
 Qed.
 
-(* whole writer runs: never a panic, never InvalidData; the frames' plaintext is exactly what the
+(* whole writer runs against the carrier script sc, starting with the carrier open or closed:
+   never a panic; an error is always the carrier's (BrokenPipe only once the carrier was closed
+   by the caller, WriteZero only for a zero-length acceptance, otherwise the scripted I/O error,
+   unchanged) — the socket never fails by itself; the frames' plaintext is exactly what the
    write calls reported as accepted; Pending only with a registered waker; once the carrier is
    closed nothing more reaches it *)
-Fixpoint wrun_ok (ops : list wop) (tr : list (wres * writer)) : Prop :=
+Fixpoint wrun_ok (ops : list wop) (sc : list N) (closed : bool) (tr : list (wres * writer)) : Prop :=
   match ops, tr with
   | [], [] => True
   | o :: ot, (x, w') :: t =>
       match x with
       | WReady n => n <= op_len o
       | WPending => w_lp w' = true
-      | WErr e => e <> E_INVALID
+      | WErr e => wsrc sc closed e
       | WPanic => False
-      end /\ wrun_ok ot t
+      end /\ wrun_ok ot sc (w_cclosed w') t
   | _, _ => False
   end.
+
+Lemma wrun_ok_incl sc sc' : incl sc' sc -> forall ops closed tr,
+  wrun_ok ops sc' closed tr -> wrun_ok ops sc closed tr.
+Proof.
+  intro Hi. induction ops as [|o ot IH]; intros closed tr; destruct tr as [|[x w'] t]; cbn [wrun_ok]; try tauto.
+  intros [H1 H2]. split; [|apply IH; exact H2].
+  destruct x; try assumption. eapply wsrc_incl; eassumption.
+Qed.
 
 Theorem run_writer_ok c : 1 <= c_mfl c -> c_mfl c + TAG <= SNOW_MAX -> 1 <= c_wbuf c ->
   forall ops sc w tr wf ok, WInv c w -> run_writer c ops sc w = (tr, wf, ok) ->
   ok = true /\ WInv c wf /\ sum (w_frames wf) = sum (w_frames w) + accepted ops tr /\
-  wrun_ok ops tr /\ (w_cclosed w = true -> w_cclosed wf = true /\ w_sent wf = w_sent w).
+  wrun_ok ops sc (w_cclosed w) tr /\ (w_cclosed w = true -> w_cclosed wf = true /\ w_sent wf = w_sent w).
 Proof.
   intros H1 H2 H3. induction ops as [|o t IH]; intros sc w tr wf ok HI; cbn [run_writer].
   - intros [= <- <- <-]. cbn [accepted wrun_ok]. split; [reflexivity|]. split; [assumption|].
     split; [lia|]. split; [exact I|]. intros Hc. split; [assumption|reflexivity].
   - destruct (wstep c o sc w) as [[x w'] sc'] eqn:Es.
-    destruct (wstep_ok c o sc w x w' sc' H1 H2 H3 HI Es) as ((A & Acs & Ax) & B & C & _).
+    destruct (wstep_ok c o sc w x w' sc' H1 H2 H3 HI Es) as ((A & Acs & Ax) & B & C & _ & Hi).
     assert (Hfin : w_is_final x = false) by (destruct x; try reflexivity; contradiction).
     rewrite Hfin.
     destruct (run_writer c t sc' w') as [[l wf'] ok'] eqn:Er.
@@ -1081,7 +1120,7 @@ Proof.
         rewrite (B eq_refl). lia.
       * destruct Ax as [Ax _]. rewrite Ax. lia.
       * destruct Ax as [Ax _]. rewrite Ax. lia.
-    + cbn [wrun_ok]. split; [|assumption].
+    + cbn [wrun_ok]. split; [|eapply wrun_ok_incl; eassumption].
       destruct x as [n| |e|]; try contradiction; tauto.
     + intro Hc. destruct (I5 (C Hc)) as [J1 J2]. split; [assumption|]. rewrite J2. apply Acs, Hc.
 Qed.
@@ -1257,7 +1296,7 @@ Theorem end_to_end c :
   let rt := run_reader (honest_env c plains) bufs rsc (reader_init c) in
   ok = true /\ sum plains = accepted ops tr /\
   (w_state w = WIdle -> sent_frames plains (w_sent w) = plains) /\
-  pieces_ok 0 bufs rt /\
+  pieces_ok 0 bufs rsc rt /\
   honest_ok (wire_len (honest plains)) (accepted ops tr) 0 rt.
 Proof.
   intros Hf H1 H2 H3 ops wsc tr w ok Hr bufs rsc plains rt.
@@ -1355,7 +1394,10 @@ Qed.
 
 Lemma consts_ok :
   1 <= MAX_FRAME_LEN /\ MAX_FRAME_LEN + TAG <= SNOW_MAX /\
-  1 <= MAX_READ_AHEAD_FACTOR /\ 1 <= MAX_WRITE_BUFFER_SIZE.
+  1 <= MAX_READ_AHEAD_FACTOR /\ 1 <= MAX_WRITE_BUFFER_SIZE /\
+  (* the Default impls of the TCP and WebSocket transport configurations *)
+  1 <= TCP_NOISE_READ_AHEAD_DEFAULT /\ 1 <= TCP_NOISE_WRITE_BUFFER_DEFAULT /\
+  1 <= WS_NOISE_READ_AHEAD_DEFAULT /\ 1 <= WS_NOISE_WRITE_BUFFER_DEFAULT.
 Proof. vm_compute. repeat split; discriminate. Qed.
 
 (* with the limit the code had before the fix (65520) a single maximal chunk is refused by snow *)
